@@ -41,12 +41,17 @@ def gen_cases(tier, seed):
                 if step == "WAITING_FOR_EOF_ACK" and hmode == "unack":
                     continue
                 cases.append({"t": "admit", "side": "S", "step": step, "hmode": hmode, "kind": kind, "towards_sender": ts, "pmode": pmode, "idw": idw, "crc": crc})
+                if step != "IDLE_FRESH":
+                    cases.append(dict(cases[-1], tx="next_seq"))
             for step in DST_STEPS:
                 if hmode == "unack" and step in ("WAITING_FOR_METADATA", "WAITING_FOR_MISSING_DATA", "WAITING_FOR_FINISHED_ACK"):
                     continue
                 if hmode == "ack" and step == "RECV_FILE_DATA_WITH_CHECK_LIMIT_HANDLING":
                     continue
                 cases.append({"t": "admit", "side": "D", "step": step, "hmode": hmode, "kind": kind, "towards_sender": ts, "pmode": pmode, "idw": idw, "crc": crc})
+                if step not in ("IDLE_FRESH", "IDLE_AFTER_TRANSACTION"):
+                    # the PDU belongs to another transaction of the same peer (its next sequence number) while the handler is busy
+                    cases.append(dict(cases[-1], tx="next_seq"))
     for cond, status, idw, crc, pmode, parsed in itertools.product(CONDS, ("UNDEFINED", "ACTIVE", "TERMINATED", "UNRECOGNIZED"), (1, 2, 4, 8), (False, True), ("ack", "unack"), (False, True)):
         cases.append({"t": "inactive", "cond": cond, "status": status, "idw": idw, "crc": crc, "pmode": pmode, "parsed": parsed})
     return cases
@@ -86,7 +91,9 @@ def run_case(case):
             if not ok:
                 obs["prep_failed"] = 1
                 return {"viol": [{"clause": "harness-could-not-prepare-step", "case": case, "step_now": ep.h.step.name}], "sig": None, "obs": obs}
-            c = prep.tx_conf(w, mode=case["pmode"])
+            c = prep.tx_conf(w, mode=case["pmode"], seq=(w.cfg["seq_start"] + 1) if case.get("tx") == "next_seq" else None)
+            if case.get("tx"):
+                obs["cells_admit_other_transaction"] = 1
             raw = pdugen.raw(case["kind"], c, fields(case["kind"]), towards_sender=case["towards_sender"])
             pdu = wire.parse(raw)
             before = (state_snapshot(ep.h), [bytes(x.pack()) for x in ep.h._pdus_to_be_sent])
@@ -152,5 +159,5 @@ def exhaustive(tier):
     return True
 
 
-REQUIRED = {"cells_route": 288, "cells_admit": 1000, "cells_inactive": 1152, "S_accepted": 10, "D_accepted": 10,
+REQUIRED = {"cells_route": 288, "cells_admit_other_transaction": 1000, "cells_admit": 1000, "cells_inactive": 1152, "S_accepted": 10, "D_accepted": 10,
             "S_exc_InvalidPduForSourceHandler": 10, "D_exc_InvalidPduForDestHandler": 10}
